@@ -52,6 +52,10 @@ def dump(n):
 
 
 def show(v):
+    if v is None:
+        return "none"
+    if type(v).__name__ == "LOGICAL":
+        return "unknown"
     if isinstance(v, bool):
         return "true" if v else "false"
     if isinstance(v, int):
